@@ -41,7 +41,7 @@ class St:
         self.np_rng = np.random.default_rng(ctx.rng.randrange(2 ** 31))
         self.n_inputs = 3
         self.stats = {}          # family -> dict(instances, fired, not_fired, invalid, known)
-        self.cases = {"norm": [], "mm": [], "rot": [], "sdpa": [], "bgelu": [], "attn": [], "gn": [], "cs": [], "sm": []}
+        self.cases = {"norm": [], "mm": [], "rot": [], "sdpa": [], "bgelu": [], "attn": [], "gn": [], "cs": [], "sm": [], "gqan": [], "atts": []}
         self.meta = {k: [] for k in self.cases}
         self.structural_only = set()
         # which variant of a repaired side condition the implementation is (False = as read at bbeff32, True = repaired):
@@ -93,6 +93,8 @@ def probe(st, fam, g, fn, params, *, expect=None, finding=None, fused_ops=(), cl
         st.stat(fam, "invalid_instance")
         return None, None
     feeds = [feeds_for(g, st.np_rng, scale=scale) for _ in range(st.n_inputs)]
+    for f_ in feeds:
+        f_.update(getattr(g, "fixed_feeds", {}))       # inputs whose values are part of the instance (e.g. run-time Slice bounds)
     run = runner or ort_run
     try:
         before = [ort_run(m, f) for f in feeds]
@@ -327,6 +329,15 @@ def fam_skip(st):
                 st.add_case("norm", f"CSkip {cbool(model_has_bias)} {cbool(kind == 'ln')} {cshape(model_in[0])} {cshape(model_in[1])} "
                                     f"{cshape(model_in[2])} {cshape(model_in[3])} {cshape(model_in[4])} {cz(p['stash_type'] or 1)} {cbool(fired)}",
                             (fam, p, fired))
+        # always present: a SYMBOLIC sequence length on the input against a skip that is broadcast over it (static 1), both Add
+        # orders -- whichever operand the rule binds first, a symbolic dim must not unify with a different static size
+        # (the contrib operator needs skip of the input's shape: a fused node fails in onnxruntime)
+        for order in (0, 1):
+            B, S, D = 2, 3, pick(rng, [8, 16])
+            p = dict(kind=kind, B=B, S=S, D=D, dtype="float32", bias=None, add_order=order, epsilon=1e-5, use_sum=False, stash_type=None,
+                     input_shape=[B, S, D], skip_shape=[B, 1, D], decl_input_shape=["B", "S", D], decl_skip_shape=["B", 1, D],
+                     decl_out_shape=["B", "S", D], input_scale=1.0)
+            probe(st, fam, N.skip_model(p), fn, p, expect=False, fused_ops=(fused,), cls=(fam, "symbolic-S-vs-static-1", order))
         ctx.sample({"family": fam, "instance": p})
 
 
@@ -1119,10 +1130,12 @@ def fam_repo_models(st):
     from onnxscript.rewriter.ort_fusions._core import optimize_for_ort
     import onnx_ir as ir
     ctx = st.ctx
-    names = [("_smollm_1", "smollm_test_1"), ("_rotary_embedding_models", "test_case_1"), ("_rotary_embedding_models", "test_case_2"),
+    # smollm_test_1 (670 MB) in the quick tier: the staged family (c19_stages) runs optimize_for_ort on it and compares the returned
+    # model with the original on onnxruntime with the same inputs (its inputs are integer ids: nothing random to vary here)
+    names = [("_rotary_embedding_models", "test_case_1"), ("_rotary_embedding_models", "test_case_2"),
              ("_rotary_embedding_models", "partial_rotary_test_case")]
     if ctx.tier == "thorough":
-        names += [("_whisper_encoder", "whisper_encoder_test"), ("_bart_encoder", "bart_encoder_test"), ("_smollm_2", "smollm_test_2"),
+        names += [("_smollm_1", "smollm_test_1"), ("_whisper_encoder", "whisper_encoder_test"), ("_bart_encoder", "bart_encoder_test"), ("_smollm_2", "smollm_test_2"),
                   ("_whisper_decoder", "whisper_decoder_test")]
     import importlib
     np.random.seed(ctx.seed % (2 ** 31))          # the repo's builders draw their weights from the global NumPy generator
@@ -1243,8 +1256,18 @@ def fam_pipeline_stages(st):
     c19_stages.fam_pipeline_stages(st)
 
 
+def fam_gqa_norm(st):
+    from harness import c19_gqanorm
+    c19_gqanorm.fam_gqa_norm(st)
+
+
+def fam_float16(st):
+    from harness import c19_f16
+    c19_f16.fam_float16(st, probe)
+
+
 FAMILIES = [fam_pipeline_stages, fam_rms, fam_skip, fam_layer_norm, fam_gelu, fam_bias_gelu, fam_softmax, fam_matmul, fam_rotary, fam_sdpa,
-            fam_attention, fam_gqa, fam_repo_models, fam_mha, fam_sdpa_lowering, fam_attention_rule, fam_gqa_rule, fam_group_norm2, fam_cos_sin]
+            fam_attention, fam_gqa, fam_repo_models, fam_mha, fam_sdpa_lowering, fam_attention_rule, fam_gqa_rule, fam_gqa_norm, fam_group_norm2, fam_cos_sin, fam_float16]
 
 
 def coq_correspondence(st):
@@ -1257,6 +1280,8 @@ def coq_correspondence(st):
                ("gn", "OV.Fusion.GroupNorm", "list gn_case", "gn_disagreeing 0 cases"),
                ("cs", "OV.Fusion.CosSin", "list cs_case", "cs_disagreeing 0 cases"),
                ("sm", "OV.Fusion.Softmax", "list softmax_case", "softmax_disagreeing 0 cases"),
+               ("gqan", "OV.Fusion.GqaNorm", "list gqa_case", "gqa_case_disagreeing 0 cases"),
+               ("atts", "OV.Fusion.AttSlice", "list att_slice_case", "att_slice_disagreeing 0 cases"),
                ("bgelu", "OV.Fusion.Gelu", "list bias_gelu_case", "(fix d (i : nat) (cs : list bias_gelu_case) : list nat := match cs with [] => [] | c :: t => (if bias_gelu_agrees c then [] else [i]) ++ d (S i) t end) 0%nat cases"))
     for name, req, ty, expr in streams:
         cases = st.cases[name]
@@ -1265,7 +1290,7 @@ def coq_correspondence(st):
             continue
         pre = "Require Import OV.Fusion.Field.\n" + ("From Coq Require Import QArith.\nOpen Scope Q_scope.\n" if name == "sdpa" else "")
         cases = [st.flag_text(c) for c in cases]
-        ok, vals, raw = ctx.coq_eval((["OV.Fusion.Norm"] if name == "sm" else []) + [req], pre + f"Definition cases : {ty} := {clist(cases)}.\nEval vm_compute in ({expr}).", name="c19_" + name)
+        ok, vals, raw = ctx.coq_eval((["OV.Fusion.Norm"] if name == "sm" else ["OV.Fusion.Attn"] if name == "atts" else []) + [req], pre + f"Definition cases : {ty} := {clist(cases)}.\nEval vm_compute in ({expr}).", name="c19_" + name)
         if not ok or not vals:
             ctx.tie_broken("correspondence", f"{name}:model-evaluation", raw[-800:])
             continue
@@ -1289,6 +1314,13 @@ def run(ctx):
                "evaluation order of the fused kernels are outside the Coq model and are observed by the direct oracle with "
                "rtol/atol float32 1e-4/1e-5, float16 1e-2/1e-3 (atol scaled by the output magnitude)")
     ctx.assume("sqrt, erf, tanh, softmax, cos, sin are arbitrary functions in the theorems; Cast is the identity on the field")
+    ctx.assume("float16 / float32 are not fields: for them the field identities say only that the model before and after a fusion compute "
+               "the same real-valued function (any difference is rounding, not another formula); they give no bound on the rounding error and "
+               "say nothing about overflow (float16 saturates at 65504), accumulation order or accumulator type of the fused kernels, NaN/inf, "
+               "denormals; the index-algebra theorems (head splitting, kv repetition, Slice partitions, normalisation/Transpose commutation) "
+               "involve no arithmetic and hold bit for bit at every dtype (Props/C19_session6.v header).  Measured per run: float16 floor per "
+               "family, forced float16 instances + near misses of skip-norm / bias-GELU / rotary / SDPA, and a discrimination test showing the "
+               "float16 tolerance rejects a deliberately wrong fused node on the same inputs (evidence: float16_discrimination)")
     ctx.assume("documented semantics of SimplifiedLayerNormalization/RMSNormalization, LayerNormalization, Skip*LayerNormalization, Gelu, "
                "FastGelu, BiasGelu, FusedMatMul (incl. transBatch), RotaryEmbedding are transcribed from the operator documents; "
                "each is measured against onnxruntime on every fired instance")
@@ -1297,16 +1329,23 @@ def run(ctx):
     logging.getLogger("onnx_ir").setLevel(logging.ERROR)       # ShapeInferencePass logs a traceback when partial inference fails
     ctx.check_props()
     st = St(ctx)
+    import time
+    walls = {}
     for fam in FAMILIES:
+        t0 = time.time()
         fam(st)
+        walls[fam.__name__] = round(time.time() - t0, 1)
+    t0 = time.time()
     coq_correspondence(st)
+    walls["coq_correspondence"] = round(time.time() - t0, 1)
+    ctx.cover(family_wall_s=walls)
     total_fired = sum(d.get("fired", 0) for d in st.stats.values())
     ctx.cover(repaired_variants={k: bool(v) for k, v in sorted(st.flags.items())})
     ctx.cover(per_dtype_instances_fired={f: {d: {"instances": v[0], "fired": v[1]} for d, v in sorted(dd.items())} for f, dd in sorted(st.by_dtype.items())},
               tolerances={"float32": "rtol 1e-4, atol 1e-5 x output magnitude (stricter than the repo's own tests: rtol = atol = 1e-3 in ort_fusions/_test_utils.assert_allclose)",
                           "float16": "rtol 1e-2, atol 1e-3 x output magnitude (the float16 analogue: 1e-3 is one float16 ulp at 1.0, the repo has no float16 numeric test)",
                           "pipeline / gqa / repo models": "slack x2 - x10, i.e. up to the repo's rtol = atol = 1e-3"},
-              float32_only_families={"gqa / gqa_rule": "the repo's Phi-style block builder and the CPU GroupQueryAttention kernel with past are float32 here",
+              float32_only_families={"gqa / gqa_rule / gqa_qk_norm": "the repo's Phi-style / Gemma-style block builders and the CPU GroupQueryAttention kernel with past are float32 here",
                                      "pipeline:repo-model": "the repo's cut-out models are float32"})
     # Is a float16 model expected to FUSE?  The GELU rules (gelu.py, erfgelu.py) match their constants (sqrt(2), sqrt(2/pi), 0.044715)
     # as Python floats with the matcher's rel_tol = 1e-5; rounded to half precision they are 4e-5 .. 1.5e-4 away, so a model exported in
@@ -1329,11 +1368,11 @@ def run(ctx):
               structural_only=sorted(st.structural_only),
               executable_fused_ops=["SimplifiedLayerNormalization", "RMSNormalization", "LayerNormalization", "SkipSimplifiedLayerNormalization",
                                     "SkipLayerNormalization", "Gelu", "FastGelu", "BiasGelu", "FusedMatMul", "RotaryEmbedding (com.microsoft and opset 23)",
-                                    "MultiHeadAttention", "Attention", "GroupQueryAttention (batch 1, head_size % 16 == 0)", "Softmax(float16)"],
+                                    "MultiHeadAttention", "Attention (three projections; packed MatMul + Slice)", "GroupQueryAttention (batch 1, head_size % 16 == 0, with / without past, q/k-norm)", "Softmax(float16)"],
               not_modelled=["rounding / kernel evaluation order of the fused attention kernels (direct oracle)",
                             "rotary embedding INSIDE the MHA/GQA rules (its own theorems cover the rotation; the rules with is_rotary are exercised through the gqa block and the repo models only)",
-                            "attention.py packed-MatMul+Slice variant and past: check modelled (att_check_rewrite) but no generated instance; gqa_packed_qkv, mha cross-attention rules, group_normalization_merge_silu not exercised",
-                            "GQA without past / batch > 1 (the CPU kernel's limit); sliding window",
+                            "attention.py rules with past (has_past = True): identity proved (C19_attention_fusion_identity_past), check modelled, no generated instance; gqa_packed_qkv, mha cross-attention rules, group_normalization_merge_silu not exercised",
+                            "GQA batch > 1 (the CPU kernel's limit), float16 GQA; sliding window; the q/k-norm theorem is not composed with the rotary embedding and the key side's Concat with the past",
                             "NCHW<->NHWC Transposes around GroupNorm (layout only: NumPy reference of the documented operator)",
                             "cos_sin_cache const_freqs variants (freqs folded to a constant) and a configured max_pos_id",
                             "softmax upcast removal (a precision claim)", "matcher constant tolerance"],
